@@ -233,4 +233,59 @@ example : (vState.2.data.map (·.1)) =
 
 end values
 
+/-! ## Inheritance: which namespaces an edit of a member changes -/
+section inheritance
+open MxModel.SM
+
+/-- **An edit of a member of space `p` – `new_cells`, a new formula, `del_cells` / `del_ref` – changes
+the member tables, hence the namespaces, of `p` and of the sub spaces the mechanism walks only**
+(`SM.St.touched st p = p :: st.subs p`): every other space has literally the same cells and
+references, the spaces, the base relation and the model-level references are unchanged. -/
+theorem member_edit_changes_only_touched_spaces (kw : List String) (st st' : SM.St) (p : Path) (name : String)
+    (v : Nat) (a0 : Attr)
+    (hop : st.newCells kw p name v = some st' ∨ st.setFormula p name v = some st' ∨
+      st.delMember a0 p name = some st') :
+    SM.Frame st st' p ∧
+    (∀ a q n, st'.mem a q n ≠ st.mem a q n → q ∈ st.touched p) ∧
+    (∀ (ids : SM.Ids) q, SM.nsOf ids st' q ≠ SM.nsOf ids st q → q ∈ st.touched p) := by
+  have hf : SM.Frame st st' p := by
+    rcases hop with h | h | h
+    · exact newCells_frame kw st st' p name v h
+    · exact setFormula_frame st st' p name v h
+    · exact delMember_frame st st' a0 p name h
+  exact ⟨hf, fun a q n hne => hf.changed_mem a q n hne, fun ids q hne => nsOf_changed_in_touched ids hf q hne⟩
+
+/-- **…so the deletion of a cells that sub spaces inherit leaves no stale value in the sub spaces
+either**, provided the clearing notifies the cells of `p` and of every sub space of `p` (the
+deleted cells and its derived copies are cleared by `clear_obj` before: no node, no input). -/
+theorem deleted_member_leaves_no_stale_value_in_subs (se : Exec.SEnv) (ids : SM.Ids) (pathOf : Nat → Path)
+    (st st' : SM.St) (p : Path) (name : String) (hop : st.delMember .cells p name = some st')
+    (L : List Exec.CellId) (lt : Exec.Node → Exec.Node → Prop) (s : Exec.St)
+    (h : Exec.CI (SM.withStruct se ids pathOf st).toEnv lt s)
+    (hL : ∀ c, pathOf (se.home c) ∈ st.touched p → c ∈ L ∨ ∀ x ∈ s.gn, x.cell ≠ c)
+    (hinp : ∀ n ∈ s.inputs, pathOf (se.home n.1) ∈ st.touched p →
+      (SM.withStruct se ids pathOf st').toEnv.alive n.1 = true) :
+    Exec.Good (SM.withStruct se ids pathOf st').toEnv
+      (Exec.inpOf (s.notifyAll (SM.withStruct se ids pathOf st).toEnv L))
+      (s.notifyAll (SM.withStruct se ids pathOf st).toEnv L) :=
+  (SM.mech_delCells_ci se ids pathOf st st' p name hop L h hL hinp).good
+
+/-! Non-vacuity: `A` defines `f`; `B(A)` and `D(B)` inherit it, `C` is unrelated.  `A.new_cells("g")`
+touches `A`, `B`, `D` – `g` becomes visible there – and nothing of `C`; `del A.f` likewise. -/
+def iOps : List SM.Op :=
+  [.newSpace [] "A" [], .newSpace [] "B" [["A"]], .newSpace [] "C" [], .newSpace [] "D" [["B"]],
+   .newCells ["A"] "f" 1, .newCells ["C"] "h" 2]
+
+def iIds : SM.Ids := ⟨fun q x => q.length * 100 + x.length, fun _ _ => 0, fun _ => 0⟩
+
+example : (SM.St.run [] {} iOps).touched ["A"] = [["A"], ["B"], ["D"]] ∧
+    (SM.nsOf iIds (SM.St.run [] {} (iOps ++ [.newCells ["A"] "g" 3])) ["D"] "g").isSome = true ∧
+    (SM.nsOf iIds (SM.St.run [] {} iOps) ["D"] "g").isSome = false ∧
+    (SM.nsOf iIds (SM.St.run [] {} (iOps ++ [.delCells ["A"] "f"])) ["D"] "f").isSome = false ∧
+    (SM.nsOf iIds (SM.St.run [] {} iOps) ["D"] "f").isSome = true ∧
+    (SM.St.run [] {} (iOps ++ [.newCells ["A"] "g" 3])).cont .cells ["C"] = (SM.St.run [] {} iOps).cont .cells ["C"] := by
+  decide
+
+end inheritance
+
 end MxModel.C13
